@@ -64,6 +64,9 @@ def run(ctx):
     for _ in range(ctx.n(300, 5000)):
         for why in R.monitor_algebra(rng):
             mon_fail.append(dict(law=why))
+    cp = R.cross_process_determinism()
+    if cp:
+        mon_fail.append(dict(law=cp))
     ctx.suite("retry.monitor", wait_cases_in_domain=in_domain, failures=len(mon_fail))
     ctx.require_coverage("retry.monitor", "wait_cases_in_domain", in_domain, 50)
     ctx.disagreements_checked = len(bad)
